@@ -10,7 +10,7 @@ import (
 // Value is a symbolic Go value. All values are immutable; updates copy.
 type Value interface{}
 
-type BV struct{ T *Term }   // any integer type, width = T.w
+type BV struct{ T *Term }    // any integer type, width = T.w
 type BoolV struct{ T *Term } // bool
 
 type PathElem struct {
@@ -49,9 +49,9 @@ func samePath(a, b []PathElem) bool {
 }
 
 type StructV struct{ F []Value }
-type ArrayV struct{ E []Value }   // non-byte arrays and backing stores of non-byte slices
-type ByteArr struct{ E []*Term }  // [N]byte, each element an 8-bit term
-type ByteBuf struct {             // backing store of a []byte with symbolic length
+type ArrayV struct{ E []Value }  // non-byte arrays and backing stores of non-byte slices
+type ByteArr struct{ E []*Term } // [N]byte, each element an 8-bit term
+type ByteBuf struct {            // backing store of a []byte with symbolic length
 	C   Content
 	Len *Term
 }
